@@ -432,6 +432,7 @@ class Engine:
             self.modules[rel] = ModuleFFI(self, rel)
         self.prog = pf.Program(tree, self.rels)
         self.attr_kinds = self._attr_registry()
+        self._helper_cache = {}
         self.sites = []
         self.stats = {"functions_scanned": 0}
         for rel in self.rels:
@@ -537,6 +538,90 @@ class Engine:
             if isinstance(e.func, ast.Call) and _last(pf.call_name(e.func)) == "POINTER":
                 return "ptr"
         return "unknown"
+
+    # -- helpers that build a ctypes value -------------------------------------
+    def helper_value(self, mf, call, enclosing_fn):
+        """`_c_flag(x)`, `_ptr(arr)`, `self._as_ptr(a)`: a call of a same-module function / module-level lambda /
+        method of the enclosing class / function imported from a repository module, every return expression of
+        which is a classifiable ctypes value -> (kind, source text with the helper inlined | None) or None"""
+        f = call.func
+        target = None  # (params, [return exprs], single_expression)
+        key = None
+        if isinstance(f, ast.Name):
+            key = (mf.rel, f.id)
+            if key in self._helper_cache:
+                target = self._helper_cache[key]
+            else:
+                fn = mf.mod.functions.get(f.id)
+                lam = mf.mod.assigns.get(f.id)
+                if fn is None and not isinstance(lam, ast.Lambda) and f.id in mf.mod.imports:
+                    m, n = mf.mod.imports[f.id]
+                    if n is not None and m.startswith("ciderpress"):
+                        rel2 = m.replace(".", "/") + ".py"
+                        if self.tree.exists(rel2):
+                            try:
+                                m2 = pf.Module(self.tree, rel2)
+                                fn = m2.functions.get(n)
+                                lam = m2.assigns.get(n)
+                            except AnalysisError:
+                                pass
+                target = self._helper_target(fn, lam, False)
+                self._helper_cache[key] = target
+        elif isinstance(f, ast.Attribute) and isinstance(f.value, ast.Name) and enclosing_fn is not None:
+            cls = pf.enclosing_class(enclosing_fn)
+            if cls is not None and f.value.id in ("self", "cls", cls.name):
+                key = (mf.rel, cls.name, f.attr)
+                if key in self._helper_cache:
+                    target = self._helper_cache[key]
+                else:
+                    m_ = pf.methods(cls).get(f.attr)
+                    static = m_ is not None and any(pf.src(d) == "staticmethod" for d in m_.decorator_list)
+                    target = self._helper_target(m_, None, m_ is not None and not static)
+                    self._helper_cache[key] = target
+        if not target:
+            return None
+        params, rets, single = target
+        kinds = {self._ret_kind(r) for r in rets}
+        if len(kinds) != 1 or "unknown" in kinds:
+            return None
+        kind = next(iter(kinds))
+        src = None
+        if single and not call.keywords and not any(isinstance(a, ast.Starred) for a in call.args) \
+                and len(call.args) <= len(params):
+            mapping = {p_: a for p_, a in zip(params, call.args)}
+            names = {n.id for n in ast.walk(rets[0]) if isinstance(n, ast.Name)}
+            if not (names & set(params)) - set(mapping):
+                e2 = ast.parse(ast.unparse(rets[0]), mode="eval").body
+
+                class _S(ast.NodeTransformer):
+                    def visit_Name(self, node):
+                        if node.id in mapping and isinstance(node.ctx, ast.Load):
+                            return ast.parse(ast.unparse(mapping[node.id]), mode="eval").body
+                        return node
+                src = ast.unparse(_S().visit(e2))
+        return kind, src
+
+    def _ret_kind(self, e):
+        if isinstance(e, ast.IfExp):
+            a, b = self._ret_kind(e.body), self._ret_kind(e.orelse)
+            return a if a == b else "unknown"
+        return self.expr_kind_simple(e)
+
+    @staticmethod
+    def _helper_target(fn, lam, drop_self):
+        if isinstance(fn, (ast.FunctionDef, ast.AsyncFunctionDef)):
+            rets = [n.value for n in pf.walk_no_nested(fn) if isinstance(n, ast.Return) and n.value is not None]
+            if not rets or any(isinstance(n, (ast.Yield, ast.YieldFrom)) for n in pf.walk_no_nested(fn)):
+                return None
+            params = [a.arg for a in fn.args.args]
+            if drop_self:
+                params = params[1:]
+            body = [st for st in fn.body if not (isinstance(st, ast.Expr) and isinstance(st.value, ast.Constant))]
+            single = len(body) == 1 and isinstance(body[0], ast.Return)
+            return params, rets, single
+        if isinstance(lam, ast.Lambda):
+            return [a.arg for a in lam.args.args], [lam.body], True
+        return None
 
     # -- scanning ------------------------------------------------------------
     def _scan_module(self, mf):
@@ -741,6 +826,10 @@ class FuncFlow:
                 return a
             if {a, b} <= {"ptr", "fnptr", "zero"}:
                 return "ptr"
+        if isinstance(e, ast.Call):
+            hv = self.eng.helper_value(self.mf, e, self.fn if not isinstance(self.fn, ast.Module) else None)
+            if hv is not None:
+                return hv[0]
         return "unknown"
 
     def item_of(self, e, env):
@@ -753,7 +842,12 @@ class FuncFlow:
             v = env.get(e.id)
             if v is not None and v[0] == "fn":
                 fr = (v[1], v[2])
-        return (self.kind_of(e, env), pf.src(e), fr)
+        src = pf.src(e)
+        if isinstance(e, ast.Call) and self.eng.expr_kind_simple(e) == "unknown":
+            hv = self.eng.helper_value(self.mf, e, self.fn if not isinstance(self.fn, ast.Module) else None)
+            if hv is not None and hv[1]:
+                src = hv[1]  # the helper inlined: downstream rules read the array / count out of this text
+        return (self.kind_of(e, env), src, fr)
 
     # -- transfer ------------------------------------------------------------
     def _kill(self, t, env):
